@@ -427,8 +427,8 @@ func genSweep(r *rand.Rand, idx int, o genOpts) *stream {
 			break
 		}
 	}
-	if r.Intn(4) != 0 {
-		fam.target = 1100 + r.Intn(900)
+	if r.Intn(4) != 0 || fam.target <= 1100 {
+		fam.target = 1100 + r.Intn(900) // always a pooled size
 	}
 	n := 24 + r.Intn(16)
 	for m := 0; m < n; m++ {
